@@ -1,7 +1,9 @@
 package core
 
 import (
+	"go/constant"
 	"go/token"
+	"go/types"
 	"sort"
 	"strings"
 
@@ -148,6 +150,12 @@ func (p *Program) Scope(root *ssa.Function, stop func(*ssa.Function) bool) []*ss
 				for _, op := range in.Operands(nil) {
 					if fv, ok := (*op).(*ssa.Function); ok {
 						walk(fv)
+					}
+					// a package-level dispatch table read here: the functions it holds may run
+					if gv, ok := (*op).(*ssa.Global); ok && gv.Pkg != nil && p.SPkgs[gv.Pkg.Pkg.Path()] == gv.Pkg {
+						for _, tf := range p.GlobalFuncs(gv) {
+							walk(tf)
+						}
 					}
 				}
 			}
@@ -338,13 +346,15 @@ func (p *Program) InAllContexts(site ssa.Instruction, vals []ssa.Value, within m
 			return false
 		}
 		// validators: the site is only reached when an in-repository function returned a nil
-		// error; what holds at every `return nil` of that function holds here
-		for _, vc := range p.passedValidators(site.Block()) {
+		// error (or a boolean helper returned a known constant); what holds at every such
+		// return of that function holds here
+		for _, pv := range p.PassedValidators(site.Block()) {
+			vc := pv.Call
 			g := vc.Call.StaticCallee()
 			if visiting[g] || (within != nil && !within[g]) {
 				continue
 			}
-			rets := nilErrorReturns(g)
+			rets := pv.SuccessReturns()
 			if len(rets) == 0 {
 				continue
 			}
@@ -393,68 +403,100 @@ func (p *Program) InAllContexts(site ssa.Instruction, vals []ssa.Value, within m
 
 // passedValidators lists the static calls of repository functions whose error result is
 // known to be nil on entry to b (`if err := validate(x); err != nil { return … }`).
-func (p *Program) passedValidators(b *ssa.BasicBlock) []*ssa.Call {
-	var out []*ssa.Call
+// PassedCall: on entry to a block, result `Idx` of the static call `Call` of a repository
+// function is known to equal the constant `Want` (`err == nil`, `problem == ""`, `ok` true, …).
+type PassedCall struct {
+	Call *ssa.Call
+	Idx  int
+	Want *ssa.Const
+}
+
+// PassedValidators lists the calls of repository functions one of whose results is known,
+// by the branch facts holding on entry to b, to equal a constant.
+func (p *Program) PassedValidators(b *ssa.BasicBlock) []PassedCall {
+	var out []PassedCall
+	resultOf := func(v ssa.Value) (*ssa.Call, int, bool) {
+		v = Resolve(v)
+		if ex, isEx := v.(*ssa.Extract); isEx {
+			if c, isC := ex.Tuple.(*ssa.Call); isC {
+				v = c
+				if g := c.Call.StaticCallee(); g != nil && g.Blocks != nil && p.inRepo(g) {
+					return c, ex.Index, true
+				}
+			}
+			return nil, 0, false
+		}
+		if c, isC := v.(*ssa.Call); isC {
+			if g := c.Call.StaticCallee(); g != nil && g.Blocks != nil && p.inRepo(g) && g.Signature.Results().Len() == 1 {
+				return c, 0, true
+			}
+		}
+		return nil, 0, false
+	}
 	for _, f := range FactsAt(b) {
+		// boolean results used as the condition itself: `if !f.writeTemp(p) { return }`, `v, ok := parse(x); if !ok {…}`
+		if c, idx, ok := resultOf(f.Cond); ok {
+			if bt, isB := f.Cond.Type().Underlying().(*types.Basic); isB && bt.Kind() == types.Bool {
+				out = append(out, PassedCall{Call: c, Idx: idx, Want: ssa.NewConst(constant.MakeBool(f.Polarity), f.Cond.Type())})
+			}
+			continue
+		}
 		bin, ok := f.Cond.(*ssa.BinOp)
 		if !ok || !((bin.Op == token.NEQ && !f.Polarity) || (bin.Op == token.EQL && f.Polarity)) {
 			continue
 		}
 		var ev ssa.Value
-		switch {
-		case IsNilConst(bin.Y):
-			ev = bin.X
-		case IsNilConst(bin.X):
-			ev = bin.Y
-		default:
+		var k *ssa.Const
+		if c, isK := bin.Y.(*ssa.Const); isK {
+			ev, k = bin.X, c
+		} else if c, isK := bin.X.(*ssa.Const); isK {
+			ev, k = bin.Y, c
+		} else {
 			continue
 		}
-		ev = Resolve(ev)
-		if ex, isEx := ev.(*ssa.Extract); isEx {
-			if c, isC := ex.Tuple.(*ssa.Call); isC && ex.Index == c.Call.Signature().Results().Len()-1 {
-				ev = c
-			}
+		if c, idx, ok := resultOf(ev); ok {
+			out = append(out, PassedCall{Call: c, Idx: idx, Want: k})
 		}
-		call, isC := ev.(*ssa.Call)
-		if !isC {
-			continue
-		}
-		g := call.Call.StaticCallee()
-		if g == nil || g.Blocks == nil || !p.inRepo(g) {
-			continue
-		}
-		res := g.Signature.Results()
-		if res.Len() == 0 || res.At(res.Len()-1).Type().String() != "error" {
-			continue
-		}
-		out = append(out, call)
 	}
 	return out
 }
 
-// nilErrorReturns lists the returns of g whose (last) error result is the nil constant; nil
-// when some return's error result is neither a nil constant nor a definite error (a
-// merged value): then nothing can be concluded.
-func nilErrorReturns(g *ssa.Function) []ssa.Instruction {
+// SuccessReturns lists the returns of the callee at which the result in question is the
+// wanted constant; nil when some return yields a merged or loaded value there (then nothing
+// can be concluded).
+func (pc PassedCall) SuccessReturns() []ssa.Instruction {
+	g := pc.Call.Call.StaticCallee()
 	var out []ssa.Instruction
 	for _, b := range g.Blocks {
 		r, ok := b.Instrs[len(b.Instrs)-1].(*ssa.Return)
-		if !ok || len(r.Results) == 0 {
+		if !ok || pc.Idx >= len(r.Results) {
 			continue
 		}
-		e := r.Results[len(r.Results)-1]
-		if IsNilConst(e) {
-			out = append(out, r)
+		e := Resolve(r.Results[pc.Idx])
+		if k, isK := e.(*ssa.Const); isK {
+			if sameConst(k, pc.Want) {
+				out = append(out, r)
+			}
 			continue
 		}
-		if _, isPhi := Resolve(e).(*ssa.Phi); isPhi {
+		if _, isPhi := e.(*ssa.Phi); isPhi {
 			return nil
 		}
-		if ld, isLd := Resolve(e).(*ssa.UnOp); isLd && ld.Op == token.MUL {
+		if ld, isLd := e.(*ssa.UnOp); isLd && ld.Op == token.MUL {
 			return nil
 		}
 	}
 	return out
+}
+
+func sameConst(a, b *ssa.Const) bool {
+	if a.Value == nil || b.Value == nil {
+		return a.Value == nil && b.Value == nil
+	}
+	if a.Value.Kind() != b.Value.Kind() {
+		return false
+	}
+	return constant.Compare(a.Value, token.EQL, b.Value)
 }
 
 // intoCallee maps a caller value to the callee's frame at call: an argument becomes the
@@ -637,4 +679,182 @@ func PkgPathOf(f *ssa.Function) string {
 		f = f.Parent()
 	}
 	return ""
+}
+
+// ---------- package-level tables ----------
+
+// TableRow is one element of a package-level slice/array-of-struct literal: the value stored
+// into each field by the package initialiser.
+type TableRow struct {
+	Fields map[string]ssa.Value
+}
+
+type globalTable struct {
+	rows  []TableRow
+	funcs []*ssa.Function
+}
+
+var tableCache = map[*ssa.Global]*globalTable{}
+
+// tableOf analyses the package initialiser: which composite literal is stored into g, and what
+// its elements hold.  Dispatch tables (`var checks = []check{{pred: func…, code: 412}, …}`)
+// are the one place in this code base where a call's targets are data.
+func (p *Program) tableOf(g *ssa.Global) *globalTable {
+	if t, ok := tableCache[g]; ok {
+		return t
+	}
+	t := &globalTable{}
+	tableCache[g] = t
+	if g.Pkg == nil {
+		return t
+	}
+	init := g.Pkg.Func("init")
+	if init == nil {
+		return t
+	}
+	// allocations that end up in g
+	var roots []ssa.Value
+	for _, b := range init.Blocks {
+		for _, in := range b.Instrs {
+			st, ok := in.(*ssa.Store)
+			if !ok || st.Addr != ssa.Value(g) {
+				continue
+			}
+			v := st.Val
+			for i := 0; i < 4; i++ {
+				switch x := v.(type) {
+				case *ssa.Slice:
+					v = x.X
+					continue
+				case *ssa.UnOp:
+					if x.Op == token.MUL {
+						v = x.X
+						continue
+					}
+				case *ssa.MakeInterface:
+					v = x.X
+					continue
+				}
+				break
+			}
+			roots = append(roots, v)
+		}
+	}
+	fn := func(v ssa.Value) *ssa.Function {
+		switch x := v.(type) {
+		case *ssa.Function:
+			return x
+		case *ssa.MakeClosure:
+			f, _ := x.Fn.(*ssa.Function)
+			return f
+		case *ssa.ChangeType:
+			if f, ok := x.X.(*ssa.Function); ok {
+				return f
+			}
+		}
+		return nil
+	}
+	seenFn := map[*ssa.Function]bool{}
+	var collect func(addr ssa.Value, row *TableRow, depth int)
+	collect = func(addr ssa.Value, row *TableRow, depth int) {
+		if depth > 4 {
+			return
+		}
+		for _, r := range Referrers(addr) {
+			switch x := r.(type) {
+			case *ssa.IndexAddr:
+				if x.X != addr {
+					continue
+				}
+				if row == nil {
+					t.rows = append(t.rows, TableRow{Fields: map[string]ssa.Value{}})
+					collect(x, &t.rows[len(t.rows)-1], depth+1)
+				} else {
+					collect(x, row, depth+1)
+				}
+			case *ssa.FieldAddr:
+				if x.X != addr {
+					continue
+				}
+				_, name, _ := FieldName(x)
+				for _, rr := range Referrers(x) {
+					if st, ok := rr.(*ssa.Store); ok && st.Addr == ssa.Value(x) {
+						if row != nil {
+							row.Fields[name] = st.Val
+						}
+						if f := fn(st.Val); f != nil && !seenFn[f] {
+							seenFn[f] = true
+							t.funcs = append(t.funcs, f)
+						}
+					}
+				}
+				collect(x, row, depth+1)
+			case *ssa.Store:
+				if x.Addr == addr {
+					if f := fn(x.Val); f != nil && !seenFn[f] {
+						seenFn[f] = true
+						t.funcs = append(t.funcs, f)
+					}
+				}
+			}
+		}
+	}
+	for _, r := range roots {
+		collect(r, nil, 0)
+	}
+	return t
+}
+
+// GlobalTable returns the rows of the composite literal a package-level variable is initialised with.
+func (p *Program) GlobalTable(g *ssa.Global) []TableRow { return p.tableOf(g).rows }
+
+// GlobalFuncs returns the functions stored in the composite literal a package-level variable is initialised with.
+func (p *Program) GlobalFuncs(g *ssa.Global) []*ssa.Function { return p.tableOf(g).funcs }
+
+// TableFieldOf: v is field `field` of an element of the package-level table g
+// (`check.code` inside `for _, check := range checks`).
+func TableFieldOf(v ssa.Value) (g *ssa.Global, field string, ok bool) {
+	v = Resolve(v)
+	var base ssa.Value
+	switch x := v.(type) {
+	case *ssa.Field:
+		_, field, _ = FieldName(x)
+		base = x.X
+	case *ssa.UnOp:
+		fa, isFa := x.X.(*ssa.FieldAddr)
+		if x.Op != token.MUL || !isFa {
+			return nil, "", false
+		}
+		_, field, _ = FieldName(fa)
+		base = fa.X
+	default:
+		return nil, "", false
+	}
+	for i := 0; i < 8 && base != nil; i++ {
+		switch x := Resolve(base).(type) {
+		case *ssa.Global:
+			return x, field, true
+		case *ssa.Alloc:
+			// the range variable: a local copy of the element
+			sts := StoresTo(x)
+			if len(sts) != 1 {
+				return nil, "", false
+			}
+			base = sts[0].Val
+		case *ssa.UnOp:
+			base = x.X
+		case *ssa.IndexAddr:
+			base = x.X
+		case *ssa.Index:
+			base = x.X
+		case *ssa.Slice:
+			base = x.X
+		case *ssa.Extract:
+			// range over a slice value: (ok, k, v) tuples do not occur for slices; give up
+			return nil, "", false
+		default:
+			return nil, "", false
+		}
+	}
+	return nil, "", false
 }
